@@ -67,8 +67,11 @@ pub fn run(n: usize, rng: &mut Rng, rep: &mut Report) {
                   "![*](x)", "![**](x)", "![_](x)", "![a *_* b](x)", "![see [*](/n) below](x)", "![~](x)", "![\nfoo](x)", "![a&#10;\nb](x)", "![a ![\nb](/i) c](x)"];
     let deep = format!("![{}x*{}](/x)", "*a ".repeat(300), " b*".repeat(299));
     let deep2 = format!("![{}x{}](/x)", "_a ".repeat(270), " b_".repeat(270));
-    for i in 0..n + corpus.len() + 2 {
-        let d = if i == n + corpus.len() { deep.clone() } else if i == n + corpus.len() + 1 { deep2.clone() } else if i < corpus.len() { corpus[i].to_string() } else if rng.chance(1, 5) {
+    // emphasis nesting is limited by max_nesting since fix 8078f5b; descriptions deeper than 256 levels still exist:
+    // the allowance restarts below every nested image (30 images x 10 wrappers = depth > 330)
+    let deep3 = format!("![{}x{}](/x)", format!("{}![", "*a ".repeat(10)).repeat(30), format!("](u){}", " b*".repeat(10)).repeat(30));
+    for i in 0..n + corpus.len() + 3 {
+        let d = if i == n + corpus.len() + 2 { deep3.clone() } else if i == n + corpus.len() { deep.clone() } else if i == n + corpus.len() + 1 { deep2.clone() } else if i < corpus.len() { corpus[i].to_string() } else if rng.chance(1, 5) {
             // containers whose only child is a lone delimiter run / a break at the start
             let lone = *rng.pick(&["*", "**", "_", "__", "~", "***", "\n", "&#10;\n", "\\\n"]);
             match rng.below(4) { 0 => format!("![{}](/x)", lone), 1 => format!("![a [{}](/n) b](/x)", lone), 2 => format!("![*{}* c](/x)", lone), _ => format!("![a ![{}b](/i) c](/x)", lone) }
